@@ -89,7 +89,7 @@ void h_run(Case &c) {
   Doc doc = parse_doc(src); CHECK(c, doc.ok, "harness_parse", "the harness could not parse a hwloc export");
   int nmut = 0; size_t trunc = 0; bool byteflip = false;
   for (size_t i = 0; i < c.ops.size(); i++) {
-    Draw &o = c.ops[i]; std::vector<Node *> all; collect(doc.root, all); Node *n = all[o.raw() % all.size()]; int k = o.range(0, 14); std::string what;
+    Draw &o = c.ops[i]; std::vector<Node *> all; collect(doc.root, all); Node *n = all[o.raw() % all.size()]; int k = o.range(0, 15); std::string what;
     // objects dominate every document: one mutation in three targets the non-object elements (distances, memory attributes, CPU kinds, infos,
     // page types, userdata, support) or their parents, whose importers have their own bounds and counters (seeded change C06)
     { uint32_t pickv = o.raw(); if (o.chance(1, 3)) { std::vector<Node *> special; for (Node *x : all) { if (x->tag != "object" && x->tag != "topology") special.push_back(x); else for (auto &kid : x->kids) if (kid.tag != "object") { special.push_back(x); break; } } std::vector<Node *> counted; for (Node *x : special) if (x->tag.find("distances") != std::string::npos || x->tag.find("memattr") != std::string::npos || x->tag.find("cpukind") != std::string::npos) counted.push_back(x);
@@ -103,6 +103,12 @@ void h_run(Case &c) {
     else if (k == 9 && !n->kids.empty()) { size_t ki = o.raw() % n->kids.size(); Node moved = n->kids[ki]; n->kids.erase(n->kids.begin() + ki); std::vector<Node *> all2; collect(doc.root, all2); Node *dst = all2[o.raw() % all2.size()]; dst->kids.push_back(moved); what = strf("move <%s> under <%s>", moved.tag.c_str(), dst->tag.c_str()); }
     else if (k == 13 && !n->kids.empty()) { size_t ki = o.raw() % n->kids.size(); Node cp = n->kids[ki]; size_t at = ki + 1; while (at < n->kids.size() && n->kids[at].tag == cp.tag) at++; n->kids.insert(n->kids.begin() + at, cp); what = strf("surplus <%s> after the last one of <%s> (more items than announced)", cp.tag.c_str(), n->tag.c_str()); }
     else if (k == 14) { bool done = false; for (auto &a : n->attrs) if (!done && (a.first == "nbobjs" || a.first == "length" || a.first == "nr" || a.first.find("count") != std::string::npos)) { unsigned long v = strtoul(a.second.c_str(), NULL, 10); a.second = std::to_string(o.chance(1, 2) ? (v > 0 ? v - 1 : 0) : v / 2); what = strf("shrink %s of <%s> (fewer items announced than present)", a.first.c_str(), n->tag.c_str()); done = true; } }
+    else if (k == 15) {   // parent/child kinds the importer must refuse: an object element moved below an object of another kind (I/O below memory, normal below I/O or Misc or PU, memory below I/O, ...)
+      auto kind_of = [](const Node *x) -> int { for (auto &a : x->attrs) if (a.first == "type") { const std::string &ty = a.second; if (ty == "NUMANode" || ty == "MemCache") return 1; if (ty == "Bridge" || ty == "PCIDev" || ty == "OSDev") return 2; if (ty == "Misc") return 3; if (ty == "PU") return 4; return 0; } return -1; };
+      std::vector<std::pair<Node *, size_t>> srcs; std::vector<Node *> dsts; for (Node *x : all) if (x->tag == "object") { dsts.push_back(x); for (size_t ki = 0; ki < x->kids.size(); ki++) if (x->kids[ki].tag == "object") srcs.push_back({x, ki}); }
+      if (!srcs.empty() && !dsts.empty()) { auto sp = srcs[o.raw() % srcs.size()]; Node moved = sp.first->kids[sp.second]; int mk = kind_of(&moved); std::vector<Node *> other; for (Node *x : dsts) if (kind_of(x) != mk && kind_of(x) > 0) other.push_back(x);
+        if (!other.empty()) { std::string dty; sp.first->kids.erase(sp.first->kids.begin() + sp.second); std::vector<Node *> all2; collect(doc.root, all2); /* pointers may have moved: pick the destination again by kind */ std::vector<Node *> other2; for (Node *x : all2) if (x->tag == "object" && kind_of(x) != mk && kind_of(x) > 0) other2.push_back(x);
+          if (!other2.empty()) { Node *dst = other2[o.raw() % other2.size()]; for (auto &a : dst->attrs) if (a.first == "type") dty = a.second; std::string mty; for (auto &a : moved.attrs) if (a.first == "type") mty = a.second; dst->kids.push_back(moved); what = strf("reparent object %s below %s", mty.c_str(), dty.c_str()); } } } }
     else if (k == 10) { for (auto &a : doc.root.attrs) if (a.first == "version") a.second = mutate_value(o, "version", a.second); what = "change topology version"; }
     else if (k == 11) { trunc = 1 + o.raw(); what = "truncate"; }
     else if (k == 12) { byteflip = true; what = "flip a byte"; }
@@ -126,7 +132,7 @@ void h_run(Case &c) {
     int l = hwloc_topology_load(t); CHECK(c, l == 0 || l == -1, "load_ret", "load returned %d", l);
     if (l == 0) {
       WFError e; wf_check(t, e);
-      if (!e.ok()) { CHECK(c, nmut > 0, "wf_export", "an unmutated hwloc export loads into an ill-formed topology: %s", e.msgs[0].c_str()); c.cls("loaded-inconsistent(F-C06-h)"); }
+      if (!e.ok()) { CHECK(c, nmut > 0, "wf_export", "an unmutated hwloc export loads into an ill-formed topology: %s", e.msgs[0].c_str()); const char *pr = importer_validated_rule(e); CHECK(c, !pr, "importer_object_check", "the document loads although it breaks a per-object rule the importer checks before insertion: %s", pr ? pr : ""); c.cls("loaded-inconsistent(F-C06-h)"); }
       else { c.cls("loaded-consistent"); c.attempt("read-only battery on the loaded topology"); run_battery(t, fail_cb); }
       if (nmut) c.nontrivial();
     } else { c.cls("rejected-late"); if (nmut) c.nontrivial();
